@@ -338,7 +338,7 @@ func (g *gen) inject(pos token.Pos, name string, sig *types.Signature, set *Prov
 		typeInfo *types.Info
 	}
 	var pendingVars []pendingVar
-	if errs := injectorCallErrors(g.pkg.Fset, pos, name, calls, injectSig, g.pkg.PkgPath); len(errs) > 0 {
+	if errs := injectorCallErrors(g.pkg.Fset, pos, name, sig, calls, injectSig, g.pkg.PkgPath); len(errs) > 0 {
 		return errs
 	}
 	for i := range calls {
@@ -383,8 +383,22 @@ func (g *gen) inject(pos token.Pos, name string, sig *types.Signature, set *Prov
 // generated: a provider returns a cleanup function or an error that the
 // injector's signature does not allow for, or a value expression mentions
 // identifiers that the injector's package cannot use.
-func injectorCallErrors(fset *token.FileSet, pos token.Pos, name string, calls []call, injectSig outputSignature, pkgPath string) []error {
+func injectorCallErrors(fset *token.FileSet, pos token.Pos, name string, sig *types.Signature, calls []call, injectSig outputSignature, pkgPath string) []error {
 	ec := new(errorCollector)
+	// The generated injector spells out the types of its parameters and
+	// results. An unexported type of another package may be reachable there
+	// through an exported alias, which go/types resolves away.
+	reported := make(map[*types.TypeName]bool)
+	for _, tuple := range []*types.Tuple{sig.Params(), sig.Results()} {
+		for i := 0; i < tuple.Len(); i++ {
+			if tn := unnameableType(tuple.At(i).Type(), pkgPath); tn != nil && !reported[tn] {
+				reported[tn] = true
+				ec.add(notePosition(
+					fset.Position(pos),
+					fmt.Errorf("inject %s: the signature mentions type %s, which is not exported by package %s", name, tn.Name(), tn.Pkg().Path())))
+			}
+		}
+	}
 	for i := range calls {
 		c := &calls[i]
 		if c.hasCleanup && !injectSig.cleanup {
@@ -432,6 +446,52 @@ func injectorCallErrors(fset *token.FileSet, pos token.Pos, name string, calls [
 		}
 	}
 	return ec.errors
+}
+
+// unnameableType returns a defined type mentioned by t that code in the package
+// with the given path cannot name (an unexported type of another package), or nil.
+func unnameableType(t types.Type, pkgPath string) *types.TypeName {
+	switch t := t.(type) {
+	case *types.Named:
+		if obj := t.Obj(); obj.Pkg() != nil && obj.Pkg().Path() != pkgPath && !obj.Exported() {
+			return obj
+		}
+		if args := t.TypeArgs(); args != nil {
+			for i := 0; i < args.Len(); i++ {
+				if tn := unnameableType(args.At(i), pkgPath); tn != nil {
+					return tn
+				}
+			}
+		}
+	case *types.Pointer:
+		return unnameableType(t.Elem(), pkgPath)
+	case *types.Slice:
+		return unnameableType(t.Elem(), pkgPath)
+	case *types.Array:
+		return unnameableType(t.Elem(), pkgPath)
+	case *types.Chan:
+		return unnameableType(t.Elem(), pkgPath)
+	case *types.Map:
+		if tn := unnameableType(t.Key(), pkgPath); tn != nil {
+			return tn
+		}
+		return unnameableType(t.Elem(), pkgPath)
+	case *types.Signature:
+		for _, tuple := range []*types.Tuple{t.Params(), t.Results()} {
+			for i := 0; i < tuple.Len(); i++ {
+				if tn := unnameableType(tuple.At(i).Type(), pkgPath); tn != nil {
+					return tn
+				}
+			}
+		}
+	case *types.Struct:
+		for i := 0; i < t.NumFields(); i++ {
+			if tn := unnameableType(t.Field(i).Type(), pkgPath); tn != nil {
+				return tn
+			}
+		}
+	}
+	return nil
 }
 
 // rewritePkgRefs rewrites any package references in an AST into references for the
